@@ -312,6 +312,11 @@ type Advance struct {
 	LBNoWrap int             // the same bound if narrow arithmetic is assumed not to wrap
 	Taint    bool            // Step derives from packet bytes / decoded fields
 	Kind     string          // "reslice" | "offset"
+	// WrappedGuard: a dominating length test compares len with the very value that wraps
+	// (so it cannot reject the wrapped case); WideGuard: some dominating test uses wide
+	// arithmetic over the same packet value (it may reject the values that wrap)
+	WrappedGuard bool
+	WideGuard    bool
 }
 
 // LoopAdvances finds, for every loop-carried slice or integer variable of fn,
@@ -349,7 +354,9 @@ func LoopAdvances(fn *ssa.Function, root *RootInfo) []Advance {
 					fi.ignoreWrap = true
 					lb2 := fi.intLB(x.Low, x.Block(), 0)
 					fi.ignoreWrap = false
-					out = append(out, Advance{Phi: ph, Step: x.Low, At: x, LB: lb, LBNoWrap: lb2, Taint: tainted(x.Low, 0), Kind: "reslice"})
+					adv := Advance{Phi: ph, Step: x.Low, At: x, LB: lb, LBNoWrap: lb2, Taint: tainted(x.Low, 0), Kind: "reslice"}
+					adv.WrappedGuard, adv.WideGuard = guardsOnStep(x.Low, x.Block())
+					out = append(out, adv)
 				case *ssa.BinOp:
 					if x.Op != token.ADD {
 						continue
@@ -1506,4 +1513,81 @@ func (fi *fnInfo) correlatedRelevant(b *ssa.BasicBlock, recheck func() bool) boo
 		}
 	}
 	return false
+}
+
+// guardsOnStep looks at the dominating conditions of b: wrapped = one of them
+// compares (a widening of) the narrow arithmetic result `step` itself; wide =
+// one of them contains wide (int) arithmetic over one of step's leaves.
+func guardsOnStep(step ssa.Value, b *ssa.BasicBlock) (wrapped, wide bool) {
+	narrow := stripConv(step)
+	nb, ok := narrow.(*ssa.BinOp)
+	if !ok {
+		return false, false
+	}
+	leaves := map[ssa.Value]bool{}
+	var collect func(v ssa.Value, d int)
+	collect = func(v ssa.Value, d int) {
+		if d > 8 {
+			return
+		}
+		switch x := v.(type) {
+		case *ssa.Convert:
+			collect(x.X, d+1)
+		case *ssa.BinOp:
+			collect(x.X, d+1)
+			collect(x.Y, d+1)
+		case *ssa.Const:
+		default:
+			leaves[v] = true
+		}
+	}
+	collect(nb, 0)
+	for x := b; x != nil; x = x.Idom() {
+		if len(x.Preds) != 1 {
+			continue
+		}
+		p := x.Preds[0]
+		iff, ok := p.Instrs[len(p.Instrs)-1].(*ssa.If)
+		if !ok {
+			continue
+		}
+		c, ok := iff.Cond.(*ssa.BinOp)
+		if !ok {
+			continue
+		}
+		for _, side := range []ssa.Value{c.X, c.Y} {
+			sv := stripConv(side)
+			if sv == ssa.Value(nb) {
+				wrapped = true
+				continue
+			}
+			if inner, isBin := sv.(*ssa.BinOp); isBin {
+				if bt, ok := inner.Type().Underlying().(*types.Basic); ok && wideSigned(bt) {
+					uses := false
+					var walk func(v ssa.Value, d int)
+					walk = func(v ssa.Value, d int) {
+						if d > 8 {
+							return
+						}
+						if leaves[v] {
+							uses = true
+							return
+						}
+						switch y := v.(type) {
+						case *ssa.Convert:
+							walk(y.X, d+1)
+						case *ssa.BinOp:
+							walk(y.X, d+1)
+							walk(y.Y, d+1)
+						}
+					}
+					walk(inner, 0)
+					if uses {
+						wide = true
+					}
+				}
+			}
+		}
+	}
+	return wrapped, wide
 }
